@@ -174,9 +174,11 @@ class NeuralUCB(RLAlgorithm):
         )
         # Inverse of the regularised Gram matrix lamb * I
         self.sigma_inv = torch.eye(self.numel).to(self.device) / self.lamb
+        # a constant snapshot: left attached to the graph of the parameters it was taken from, its
+        # gradient cancels the regularisation term in learn() exactly
         self.theta_0 = torch.cat(
             [w.flatten() for w in self.exp_layer.parameters() if w.requires_grad]
-        )
+        ).detach()
 
     def get_action(
         self, obs: ObservationType, action_mask: Optional[ArrayLike] = None
